@@ -46,10 +46,10 @@ def plan(tier, seed):
     return S
 
 
-def run_history(res, al_vars, steps, make, cfg, keep, mode="exact", pid=PID):
+def run_history(res, al_vars, steps, make, cfg, keep, mode="exact", pid=PID, **runkw):
     from vf.mon import api
 
-    run = api.Run(res, al_vars, make, pid, mode=mode, cfg=cfg, keep=keep)
+    run = api.Run(res, al_vars, make, pid, mode=mode, cfg=cfg, keep=keep, **runkw)
     for st in steps:
         if st["s"] >= len(run.live):
             continue
